@@ -68,6 +68,8 @@ NoSym == [s90 |-> FALSE, s180 |-> FALSE, sseg |-> FALSE, ss |-> FALSE, sz |-> FA
 (* shift_z is implemented and asking for any other switch disables all;    *)
 (* Generic: no symmetries.                                                 *)
 PhiOffsetZero(c, g) == c.mash = 1 /\ ~g.tilt
+\* BlocksOnCylindrical data: c.cpb = axial crystals per block, c.uniform = the axial block spacing is cpb crystal spacings
+UniformAxial(c) == "uniform" \notin DOMAIN c \/ c.uniform
 \* ProjMatrixByBinUsingRayTracing with use_actual_detector_boundaries (section 3b).  The unchanged
 \* implementation keeps every symmetry in that mode (known finding C03-uadb); the proposed patch
 \* notes/C03-fix-1.diff drops the two phi symmetries and traverses the chord in the nominal direction.
@@ -91,6 +93,8 @@ EffectiveSwitches(c, g, sw) ==
              ss |-> sw.ss /\ other,
              sz |-> sw.sz]
        [] g.geom = "BlocksOnCylindrical" ->
+            \* (the guard "shift_z needs uniform axial sampling" is inert: axial_sampling_is_uniform() is a stub
+            \* that answers true; shift_z is block-aware - section 2c - and stays sound with gaps between blocks)
             IF s180r \/ sw.sseg \/ sw.ss THEN NoSym ELSE [NoSym EXCEPT !.sz = sw.sz]
        [] OTHER -> NoSym
 
@@ -253,6 +257,33 @@ FindOp(c, g, esw, b) ==
 \* a row is a set (or sequence) of <<voxel, value>>; symmetry-derived row of b from the basic row
 TransformRow(op, row) == { << VoxMap(op, e[1]), e[2] >> : e \in row }
 
+(* ------------------ 2c. BlocksOnCylindrical: shift_z -------------------- *)
+(* For block geometry only shift_z is implemented (span 1, uniform axial    *)
+(* sampling): a bin may be shifted axially as long as its two rings stay in *)
+(* their blocks; the basic bin is "the first LOR of the group" - ring 1 at  *)
+(* the first crystal of its block when the ring difference then spans the   *)
+(* same number of blocks, otherwise at the last crystal ("the last LOR").    *)
+(* Ring pair of a span-1 bin: segment = ring2 - ring1, axial position = the *)
+(* smaller ring.                                                            *)
+Ring1(b) == IF b.seg >= 0 THEN b.ax ELSE b.ax - b.seg
+Ring2(b) == IF b.seg >= 0 THEN b.ax + b.seg ELSE b.ax
+BlockStart(c, r) == (r \div c.cpb) * c.cpb
+FindBasicBlocks(c, esw, b) ==
+  IF ~esw.sz THEN b
+  ELSE LET r1 == Ring1(b)  r2 == Ring2(b)  d == r2 - r1  ad == Abs(d)
+           blkdiff == Abs((r2 \div c.cpb) - (r1 \div c.cpb))
+           first == ad % c.cpb = 0 \/ blkdiff = ad \div c.cpb
+           \* the ring with the smaller number is moved to the first (or last) crystal of its block
+           lowNew == IF first THEN BlockStart(c, Min2(r1, r2)) ELSE BlockStart(c, Min2(r1, r2)) + c.cpb - 1
+       IN [b EXCEPT !.ax = lowNew]
+\* z_shift by the difference of the axial positions ("transform_bin_coordinates(basic bin) = bin")
+FindOpBlocks(c, g, esw, b) ==
+  LET bb == FindBasicBlocks(c, esw, b)
+      dax == b.ax - bb.ax
+      zs == Npa(c, g, b.seg) * dax
+  IN WithParams(IF zs = 0 THEN TRIV ELSE ZSHIFT, NumViews(c), dax, zs, 0)
+BlocksConfigOk(c, g) == g.geom = "BlocksOnCylindrical" /\ c.span = 1 /\ ~c.ge /\ c.mash = 1 /\ c.tofMash = 0
+                        /\ "cpb" \in DOMAIN c /\ c.cpb >= 1 /\ c.R % c.cpb = 0 /\ LegalConfig(c) /\ GridOk(c, g)
 (* ------------------ 3. isometries acting on nominal lines --------------- *)
 (* An in-plane isometry acts on phi by  phi -> phi + alpha  (orientation   *)
 (* preserving) or  phi -> alpha - phi, a -> -a  (orientation reversing),   *)
@@ -342,6 +373,17 @@ NumRelated(c, esw, b) ==
   * (IF esw.sseg /\ b.seg # 0 THEN 2 ELSE 1)
   * (IF esw.ss /\ b.tang # 0 THEN 2 ELSE 1)
   * (IF esw.sz THEN NumAx(c, b.seg) ELSE 1)
+
+\* S1 / S2 for block geometry (the lines are the nominal ones: the axial sampling is uniform)
+S1Blocks(c, g, esw, b) ==
+  LET bb == FindBasicBlocks(c, esw, b) IN
+  /\ InRange(c, bb) /\ FindBasicBlocks(c, esw, bb) = bb
+  /\ BinMap(FindOpBlocks(c, g, esw, b), bb) = b
+S2Blocks(c, g, esw, b) ==
+  LET bb == FindBasicBlocks(c, esw, b)  op == FindOpBlocks(c, g, esw, b) IN
+  /\ Canon(c, IsoLine(op, Line(c, g, bb))) = Canon(c, Line(c, g, b))
+  \* the shift keeps both rings inside their blocks (a rigid translation even if there were gaps)
+  /\ Ring1(bb) \div c.cpb = Ring1(b) \div c.cpb /\ Ring2(bb) \div c.cpb = Ring2(b) \div c.cpb
 
 (* ------------------ theorems checked by TLC (MC_Symmetries) ------------- *)
 \* configurations this module describes
